@@ -274,6 +274,9 @@ def _build_spec(d):
     if k == "pattern_obj":
         return dc.AvoidPattern(d["pattern"], boost=boost)
     if k == "gcwin":
+        if d.get("as_string"):
+            # the documented string form "35-65%/20bp" (integer percentages)
+            return dc.EnforceGCContent("%d-%d%%/%dbp" % (round(d["mini"] * 100), round(d["maxi"] * 100), d["window"]), location=loc)
         return dc.EnforceGCContent(mini=d["mini"], maxi=d["maxi"], window=d["window"], location=loc)
     if k == "gc_obj":
         return dc.EnforceGCContent(target=d["target"], window=d["window"], boost=boost, location=loc)
